@@ -14,8 +14,8 @@
 EXTENDS ProxyJudge, ConfigOps, Json, IOUtils
 CONSTANT Focus
 Trace == ndJsonDeserialize(IOEnv.TRACE_FILE)
-VARIABLES l, cfg, answered
-tvars == <<l, cfg, answered>>
+VARIABLES l, cfg, answered, txs      \* txs: client transaction <<method, branch>> -> backend it was dispatched to
+tvars == <<l, cfg, answered, txs>>
 Put(f, k, v) == [x \in DOMAIN f \cup {k} |-> IF x = k THEN v ELSE f[x]]
 Drop(f, k) == [x \in DOMAIN f \ {k} |-> f[x]]
 MaxI(a, b) == IF a > b THEN a ELSE b
@@ -35,6 +35,11 @@ Backs == Range(cfg.backs)
 SrcAddr(e) == e.src.ip \o ":" \o ToString(e.src.port)
 SubState(m) == IF HasCls(m.hdrs, "substate") THEN m.hdrs[FirstPos(m.hdrs, "substate")].val ELSE ""
 Dispatched(e) == Len(e.outs) = 1 /\ e.outs[1].kind = "backend"
+\* the client transaction of a response: CSeq method + branch of its top Via (the proxy's own entry)
+TxKey(m) == <<m.method, IF ViaStack(m) = <<>> THEN "" ELSE ParamOf(ViaStack(m)[1].params, "branch")>>
+\* a response from an address that is no registered backend, attributed through the transaction binding (a mechanism
+\* beneath the listed property - C04 quantifies over answers sent from the configured address: deviations are M:)
+ViaTx(e) == e.inmsg.kind = "resp" /\ SrcAddr(e) \notin Backs /\ TxKey(e.inmsg) \in DOMAIN txs
 
 \* the verdict on one step
 Verdict(e) ==
@@ -46,6 +51,7 @@ Verdict(e) ==
              surelyAlive == e.t1 < a.lo + a.life
              surelyDead == e.t0 > a.hi + a.life
          IN IF a.maybe THEN ""
+            ELSE IF a.viatx THEN (IF surelyAlive /\ e.outs[1].addr # a.b THEN "M:request-of-a-dialog-attributed-through-the-transaction-binding-not-delivered-to-that-backend" ELSE "")
             ELSE IF surelyAlive /\ e.outs[1].addr # a.b
                  THEN (IF Focus = "C04" THEN "P:C04:in-dialog-request-not-delivered-to-the-answering-backend" ELSE "P:C15:pin-not-honoured-within-its-lifetime")
             ELSE IF Focus = "C15" /\ surelyDead /\ ~e.pooled THEN "P:C15:pin-honoured-after-its-lifetime-has-elapsed"
@@ -60,9 +66,13 @@ Update(e) ==
     LET m == e.inmsg IN
     IF e.panic # "" \/ ~HasDlg(m) THEN answered
     ELSE IF m.kind = "resp" /\ m.method = "INVITE" /\ SrcAddr(e) \in Backs
-    THEN Put(answered, Dlg(m), [b |-> SrcAddr(e), lo |-> e.t0, hi |-> e.t1, life |-> MaxI(TimeoutUs, e.expires), maybe |-> FALSE])
+    THEN Put(answered, Dlg(m), [b |-> SrcAddr(e), lo |-> e.t0, hi |-> e.t1, life |-> MaxI(TimeoutUs, e.expires), maybe |-> FALSE, viatx |-> FALSE])
+    ELSE IF m.kind = "resp" /\ m.method = "INVITE" /\ ViaTx(e)
+    THEN Put(answered, Dlg(m), [b |-> txs[TxKey(m)], lo |-> e.t0, hi |-> e.t1, life |-> MaxI(TimeoutUs, e.expires), maybe |-> FALSE, viatx |-> TRUE])
+    ELSE IF m.kind = "resp" /\ m.method = "INVITE" /\ Dlg(m) \in DOMAIN answered
+    THEN [answered EXCEPT ![Dlg(m)].maybe = TRUE]      \* an answer from an unknown address without a live binding: what it does to an existing pin is not claimed
     ELSE IF m.kind = "resp" /\ m.method = "SUBSCRIBE" /\ Len(e.outs) = 1 /\ e.outs[1].addr \in Backs
-    THEN Put(answered, Dlg(m), [b |-> e.outs[1].addr, lo |-> e.t0, hi |-> e.t1, life |-> MaxI(TimeoutUs, e.expires), maybe |-> FALSE])
+    THEN Put(answered, Dlg(m), [b |-> e.outs[1].addr, lo |-> e.t0, hi |-> e.t1, life |-> MaxI(TimeoutUs, e.expires), maybe |-> FALSE, viatx |-> FALSE])
     ELSE IF m.kind = "resp" /\ m.method = "BYE" /\ SrcAddr(e) \in Backs THEN Drop(answered, Dlg(m))
     ELSE IF m.kind = "req" /\ m.method = "NOTIFY" /\ Dispatched(e) /\ Dlg(m) \in DOMAIN answered
     THEN (IF SubState(m) = "terminated" THEN Drop(answered, Dlg(m))
@@ -70,15 +80,25 @@ Update(e) ==
           ELSE answered)
     ELSE answered
 
-TraceInit == l = 1 /\ cfg = [none |-> TRUE] /\ answered = <<>>
+\* the transaction bindings: every dispatch binds <<method, stamped branch>>; a final response from an unknown address consumes it
+UpdateTx(e) ==
+    LET m == e.inmsg IN
+    IF e.panic # "" THEN txs
+    ELSE IF m.kind = "req" /\ Dispatched(e) /\ "branch" \in DOMAIN e.outs[1] THEN Put(txs, <<m.method, e.outs[1].branch>>, e.outs[1].addr)
+    ELSE IF ViaTx(e) /\ m.status >= 200 THEN Drop(txs, TxKey(m))
+    ELSE txs
+TraceInit == l = 1 /\ cfg = [none |-> TRUE] /\ answered = <<>> /\ txs = <<>>
 TraceNext ==
   /\ l <= Len(Trace) /\ l' = l + 1
   /\ LET e == Trace[l] IN
-     IF e.ev = "reset" THEN cfg' = e.cfg /\ answered' = <<>>
+     IF e.ev = "reset" THEN cfg' = e.cfg /\ answered' = <<>> /\ txs' = <<>>
      ELSE /\ cfg' = cfg
           /\ answered' = Update(e)
+          /\ txs' = UpdateTx(e)
           /\ LET v == Verdict(e) IN
-             IF v # "" THEN PrintT("FAIL|" \o ToString(l) \o "|" \o e.case \o "|" \o v \o "|" \o e.cls) ELSE TRUE
+             IF v = "" THEN TRUE
+             ELSE IF SubSeq(v, 1, 2) = "M:" THEN PrintT("WARN|" \o ToString(l) \o "|" \o e.case \o "|" \o v \o "|" \o e.cls)
+             ELSE PrintT("FAIL|" \o ToString(l) \o "|" \o e.case \o "|" \o v \o "|" \o e.cls)
 TraceSpec == TraceInit /\ [][TraceNext]_tvars
 Consumed == (l = Len(Trace) + 1) => PrintT("CONSUMED|" \o ToString(Len(Trace)))
 =============================================================================
